@@ -24,6 +24,8 @@ func Run(t *testing.T, p *plan.Plan, keepLog int) *Result {
 		return RunAuth(t, p, keepLog)
 	case "latedial":
 		return RunLateDial(t, p, keepLog)
+	case "codec":
+		return RunCodec(t, p, keepLog)
 	}
 	return &Result{Seed: p.Seed, Family: p.Family, Focus: p.Focus, Note: "unknown family"}
 }
